@@ -646,7 +646,7 @@ static void DecodeEmulOneToTwo(Word Code) {
 
         /* transform 0(Rn) as Dest back to @Rn as Src: */
 
-        else if ((SrcParts.Mode == eModeRegDisp) && (DestParts.Val == 0)) {
+        else if ((SrcParts.Mode == eModeRegDisp) && (DestParts.Val == 0) && (SrcParts.Part != RegCG1)) {
             SrcParts.Mode = eModeIReg;
             SrcParts.Cnt  = 0;
         }
@@ -746,7 +746,7 @@ static void DecodeEmulOneToTwoX(Word Code) {
 
         /* transform 0(Rn) as Dest back to @Rn as Src: */
 
-        else if ((SrcParts.Mode == eModeRegDisp) && (DestParts.Val == 0)) {
+        else if ((SrcParts.Mode == eModeRegDisp) && (DestParts.Val == 0) && (SrcParts.Part != RegCG1)) {
             SrcParts.Mode = eModeIReg;
             SrcParts.Cnt  = 0;
         }
